@@ -15,7 +15,7 @@ import (
 )
 
 var (
-	errHeadersNotSupported   = errors.New("kafka-go: the broker only supports message format 1, which cannot carry record headers")
+	errHeadersNotSupported   = errors.New("kafka: the broker only supports message format 1, which cannot carry record headers")
 	errInvalidWriteTopic     = errors.New("writes must NOT set Topic on kafka.Message")
 	errInvalidWritePartition = errors.New("writes must NOT set Partition on kafka.Message")
 )
@@ -1199,7 +1199,7 @@ func (c *Conn) writeCompressedMessages(codec CompressionCodec, msgs ...Message) 
 		// record headers: refuse instead of dropping them silently.
 		for i := range msgs {
 			if len(msgs[i].Headers) != 0 {
-				err = errHeadersNotSupported
+				nbytes, err = 0, errHeadersNotSupported
 				return
 			}
 		}
